@@ -29,12 +29,13 @@ func (vc *VC) TranslateLemma(l *Lemma) (sc *Script, err error) {
 	}()
 	cnt := 0
 	f := vc.newFctx(nil, &Contract{Loops: map[int][]Clause{}}, sc, "", &cnt)
+	f.lemmaReveal = l.Reveal
 	f.cur = &State{cells: map[string]Term{}}
 	f.entry = f.cur
 	f.curReach = BoolLit(true)
 	vars := map[string]Term{}
 	env := func() *Env {
-		e := &Env{Vars: vars, Defs: vc.cs.Defs, Pure: vc.pureResolverDir(l.PkgDir)}
+		e := &Env{Vars: vars, Defs: vc.cs.Defs, Pure: vc.pureResolverDir(l.PkgDir), Reveal: l.Reveal}
 		e.FieldOf = func(x Term, field string) (Term, bool) { return f.fieldIn(f.cur, x, field) }
 		return e
 	}
